@@ -23,7 +23,8 @@ CHECKS = {
         "explicit-state BFS over connect/disconnect/emit/kill histories on the real urwid.signals with behaviour-carrying handlers, lock-step reference connection list",
         "All histories up to the depth bound over 32 connect variants (handler behaviour x argument style), disconnect by key/args, emit on "
         "three (sender, name) pairs, weak-argument death and sender drop are executed on the real Signals object; each emit is judged "
-        "against an ordered list of live connections with per-emit bookkeeping of what changed during the emit.",
+        "against an ordered list of live connections with per-emit bookkeeping of what changed during the emit. One sender is falsy (an empty list walker). "
+        "Registration: every class shape with <= 2 bases out of {declares a, declares b, metaclass only, plain mixin} x own signals x one more subclass level; a name is accepted iff the MRO declares it.",
         "Trusted: CPython refcount semantics for weakref callbacks; bound = depth 4/5, <= 3/4 live connections, recursion depth 1.",
         "DESIGN.md §4 C14",
     ),
@@ -78,7 +79,7 @@ CHECKS = {
         "~400 byte tokens (all CSI finals x parameter forms, OSC, charset, C0/C1, valid/invalid UTF-8, incomplete sequences) + resizes + scrollback view "
         "operations are explored breadth-first with deduplication on the complete emulator state; every state is checked for grid shape, cursor/region "
         "bounds, content() shape, reply grammar and chunking independence; on the VT100 subset the emulator is compared after every token with "
-        "mc/refs/vt_ref.py (accepting DEC/xterm or Linux-console behaviour where the family disagrees).",
+        "mc/refs/vt_ref.py (accepting DEC/xterm or Linux-console behaviour where the family disagrees). Scrollback sweep: every scroll amount, then every kind of resize while scrolled back.",
         "Trusted: mc/refs/vt_ref.py; sizes <= 9x3 / 2x4; depth bounds in evidence; Terminal widget (child process) not driven, only TermCanvas.",
         "DESIGN.md §4 C15",
     ),
@@ -97,7 +98,8 @@ CHECKS = {
         "Every Columns option list of length <= 3 (thorough: + length 4 over 7 options) over given/packed-fixed/packed-flow/weighted/box columns x dividechars 0..2 x "
         "min_width 1..3 x every focus x available 1..12/20 in flow and box render, plus the same Columns object re-queried across all sizes and focus positions; every "
         "box Pile of <= 3/4 items; Padding/Filler over 19 size kinds x 9 alignments x minimum x margins 0..2 x available 1..12/18; Overlay over width kind x height kind "
-        "x aligns x margins x sizes; GridFlow 1..5/7 cells x cell width x separators x align x available.",
+        "x aligns x margins x sizes; GridFlow 1..5/7 cells x cell width x separators x align x available (also one cell with its own width, and cell_width reassigned); float weights; "
+        "options reassigned on a live Padding / Overlay / Columns / Pile / GridFlow compared with a fresh container built with the new options.",
         "Trusted: mc/probe.py probes (constant natural sizes); weakest readings listed in the evidence assumptions; zero weights / zero given sizes excluded by the statement's precondition.",
         "DESIGN.md §4 C19",
     ),
@@ -117,7 +119,8 @@ CHECKS = {
         "bounded-exhaustive enumeration of typed trees with self-painting recording leaves x the first fitting sizes of a size lattice (fit precondition verified on the canvas composition tree) x every cell: press and move_cursor_to_coords on every cell, judged against what the rendered canvas shows at that cell",
         "51 container/decoration constructors (Pile, Columns, Frame parts, Filler, Padding, Overlay box/flow, BoxAdapter, LineBox, AttrMap, WidgetPlaceholder, GridFlow, ListBox incl. "
         "states after set_focus_valign / body.set_focus / deletion) over 9 leaf kinds (painting probes, row-/column-refusing probes, unselectable probe, multi-line Edit, Edit with a "
-        "two-row caption, SelectableIcon) and every constructor over every constructor for 3/6 leaves; 3/6 fitting sizes per tree and mode; every cell: cursor-agrees, hit, move-iff, move-row.",
+        "two-row caption, SelectableIcon) and every constructor over every constructor for 3/6 leaves; 3/6 fitting sizes per tree and mode; every cell: cursor-agrees, hit, move-iff, move-row; "
+        "per tree and size one live tree walked over every selectable leaf (moves, then presses) with all canvases alive and the cache warm.",
         "Trusted: mc/probe.py painting (cross-checked against the bounding boxes); fit = every leaf rendered once, fully visible, no canvas trimmed on the way, LineBox >= 3x3; "
         "trees whose path contains a widget without move_cursor_to_coords (Frame, Overlay, ListBox) are outside the quantifier for the move clauses.",
         "DESIGN.md §4 C09",
@@ -125,10 +128,10 @@ CHECKS = {
     "C08": (
         MC,
         "explicit-state BFS over histories of keys, button-1 presses on every cell, focus_position / set_focus_path assignments (valid and invalid) and contents mutations on nested container fixtures with recording probe leaves; focus invariants on every state, input-routing clauses on every transition",
-        "19 fixtures (Pile flow/box, Columns, Pile(Columns), Columns(Pile), Pile(Pile), GridFlow, Frame, Frame(Columns header, ListBox), Overlay, ListBox, ListBox(Pile), empty and all-unselectable "
+        "21 fixtures (Pile flow/box, Columns, Pile(Columns), Columns(Pile), Pile(Pile), GridFlow, Frame, Frame(Columns header, ListBox), Overlay, ListBox, ListBox(Pile), empty and all-unselectable "
         "containers); operations: 10 keys, presses on every cell, focus_position for every valid position and -1/len/'bogus' on every container, focus-path round trip and restore, contents "
         "insert/assign/replace-all/delete/slice-delete (reversed, extended)/clear, walker insert/delete, Frame header/footer set/remove; depth 3/4 with dedup on the complete focus state; every "
-        "state rendered (as the main loop does after each input).",
+        "state rendered (as the main loop does after each input); pairs (assignment or deletion, then press or arrow key) without a render in between, compared with the run that renders in between.",
         "Trusted: mc/probe.py; 'arrows move focus only onto selectable children' judged on Pile/Columns/GridFlow/Frame; at most 2 new widgets per history.",
         "DESIGN.md §4 C08",
     ),
@@ -146,17 +149,18 @@ CHECKS = {
         "explicit-state BFS over histories of scrolling keys, wheel events, set_scrollpos (positive/negative), resizes, content changes and unrendered two-input sequences on Scrollable / ScrollBar fixtures with unique content rows; every state rendered and compared with the wrapped widget's own full rendering; exhaustive set_scrollpos sweeps for thumb monotonicity",
         "7 contents (Text of 1/3/7 lines, wrapping Text, Pile with Edit, Pile of icons, fixed BigText) x {Scrollable alone, ScrollBar right/left width 1/2} x 7 sizes incl. 1-row, 1-column "
         "and bar-wide views; ops: 7 keys, wheel up/down, 7 positions, resize to every size, content longer/shorter, and pairs of inputs without a render in between; depth 2/3; clauses: slice, "
-        "range, reports-p, bar-iff-overflow, bar geometry, thumb-top-iff-p0, thumb-monotone (complete sweep), no-double-use; ScrollBar(ListBox) walks for geometry.",
+        "range, reports-p, bar-iff-overflow, bar geometry, thumb-top-iff-p0, thumb-monotone (complete sweep), no-double-use; scrollbar_width / scrollbar_side reassigned and the wrapped widget replaced on the "
+        "live ScrollBar; a second BFS (depth 3/4) over ScrollBar(ListBox): keys, wheel, resize, items growing / shrinking in place, walker append / pop.",
         "Trusted: unique rows identify p; distinctive thumb/trough characters; weakest readings in the evidence assumptions.",
         "DESIGN.md §4 C20",
     ),
     "C06": (
         MC,
         "explicit-state BFS over histories of observations (render / rows at several sizes and focus values), public mutators, input handling, content edits and release + garbage collection of handed-out canvases, each history compared observation by observation with a from-scratch twin run that empties the canvas cache before every observation",
-        "6 fixtures (Frame/ListBox/Columns/AttrMap; Filler/Pile/Columns/Padding/LineBox/GridFlow/placeholder; Overlay/Frame/placeholder; ScrollBar/Scrollable/Pile; nested "
+        "7 fixtures (a Frame of icons that do not invalidate themselves; Frame/ListBox/Columns/AttrMap; Filler/Pile/Columns/Padding/LineBox/GridFlow/placeholder; Overlay/Frame/placeholder; ScrollBar/Scrollable/Pile; nested "
         "Padding/AttrMap/LineBox; same widget twice + no_cache widget + ListBox over a signal-less walker), pre-rendered twice with both canvases alive; 8-19 mutators per fixture, 3-4 "
         "observation points, rows(), drop oldest/newest/all + gc; depth 3/4; dedup on (widget state, live cache entries and dependency edges, canvases held); clauses same-render, "
-        "same-rows, handed-out-immutable.",
+        "same-rows, handed-out-immutable, cached-canvas-immutable (every canvas found in the cache keeps the content it had when first seen).",
         "Trusted: CPython refcounting makes release deterministic; the twin shares per-widget layout caches' behaviour; plain attribute assignment without a setter (Padding.left) is not a public mutator.",
         "DESIGN.md §4 C06",
     ),
@@ -186,17 +190,19 @@ CHECKS = {
         "(incl. add-then-remove a zero-delay alarm, add an idle callback from a callback), raise ExitMainLoop or Boom; every single body in every slot, every (quick: every third) pair, "
         "thorough: a 6^3 lattice of triples; x select/asyncio/tornado/twisted/zmq/trio x all schedules with <= 2/3 deviations (trio 1/2); clauses alarm-once, alarm-not-early, alarm-order, "
         "alarm-removed-never-runs, remove-true-then-false, alarm-eventually, watch-only-while-registered, watch-eventually, idle-after-callback, idle-removed-never-runs, exit-silent, "
-        "raise-once (incl. a second run), only-callback-exceptions, terminates.",
-        "Trusted: mc/virt/loops.py environments behave as a legal OS; idle slack 12 ms virtual; tornado/trio time tolerance 1-2 ms; trio explored through its batch-reversal coin only.",
+        "raise-once (incl. a second run), only-callback-exceptions, terminates. Part 2: every registration order of up to 7/8 alarms with distinct due times, no removal / each alarm removed "
+        "before run() / from the earliest other alarm's callback (firing order, times, remove results). Part 3: three watches (descriptors 0, 8, 9) and two idle callbacks, every subset removed before run().",
+        "Trusted: mc/virt/loops.py environments behave as a legal OS; idle slack 12 ms virtual; trio time tolerance 1 ms (all other loops run on the exact virtual clock); trio explored through its batch-reversal coin only.",
         "DESIGN.md §4 C13",
     ),
     "C12": (
         FE,
         "fault enumeration over scripted MainLoop sessions on a real pty: one clean session per configuration counts the callback-site invocations, then one session per invocation index and exception kind raises exactly there; every session runs in its own forked process under a watchdog, the display output is decoded by the reference terminal",
-        "4 scripts (keys; three keys in one read; mouse press+release, alarm; resize, pipe write, watched descriptor) x select/asyncio/tornado/twisted/trio/zmq x raw Screen with and without "
+        "8 scripts (keys; three keys in one read; mouse press+release, alarm; resize, pipe write, watched descriptor; an escape sequence split over two reads then a pause; the application replacing "
+        "loop.widget; the screen stopped and restarted from a key handler; a key handler replacing loop.widget with later keys of the same read pending) x select/asyncio/tornado/twisted/trio/zmq x raw Screen with and without "
         "hook_event_loop x pop_ups x bracketed paste + focus reporting x default / custom SIGWINCH, SIGTSTP, SIGCONT handlers; sites: input filter, keypress, mouse_event, unhandled_input, alarm, "
         "watch, pipe, render in the idle redraw; kinds: ExitMainLoop, Exception subclass, SystemExit; clean-run clauses order, redraw-before-wait; fault clauses exit-clean, propagates (same "
-        "object), screen-stopped, modes-restored, termios-restored, signals-restored, returns.",
+        "object), screen-stopped, modes-restored, termios-restored, signals-restored, returns; clean-run clauses also input-exact and topmost-widget. The output file is modelled as fully buffered.",
         "Trusted: mc/refs/vt_ref.py mode tracking; sessions use real loops and real time (4 s watchdog); signals delivered synchronously; evidence digest is not re-executed (timing).",
         "DESIGN.md §4 C12",
     ),
